@@ -145,6 +145,11 @@ pub trait SMBusMCTPRequestResponse {
 
         let packet = MCTPSMBusPacket::new(&mut smbus_header, &base_header, &body);
 
+        if !packet.fits_byte_count() {
+            // Too large for a single SMBus block write
+            return Err(());
+        }
+
         Ok(packet.to_raw_bytes(buf))
     }
 
@@ -165,6 +170,11 @@ pub trait SMBusMCTPRequestResponse {
         let body = MCTPMessageBody::new(&header, *message_header, message_data, None);
 
         let packet = MCTPSMBusPacket::new(&mut smbus_header, &base_header, &body);
+
+        if !packet.fits_byte_count() {
+            // Too large for a single SMBus block write
+            return Err(());
+        }
 
         Ok(packet.to_raw_bytes(buf))
     }
@@ -188,6 +198,11 @@ pub trait SMBusMCTPRequestResponse {
 
         let packet = MCTPSMBusPacket::new(&mut smbus_header, &base_header, &body);
 
+        if !packet.fits_byte_count() {
+            // Too large for a single SMBus block write
+            return Err(());
+        }
+
         Ok(packet.to_raw_bytes(buf))
     }
 
@@ -208,6 +223,11 @@ pub trait SMBusMCTPRequestResponse {
         let body = MCTPMessageBody::new(&header, *message_header, message_data, None);
 
         let packet = MCTPSMBusPacket::new(&mut smbus_header, &base_header, &body);
+
+        if !packet.fits_byte_count() {
+            // Too large for a single SMBus block write
+            return Err(());
+        }
 
         Ok(packet.to_raw_bytes(buf))
     }
